@@ -824,8 +824,10 @@ def main():
         "per-declaration comparison of TYPE / CUSTOM_TYPE / VARIANTS on the generated corpus",
         "the table gen/TypeTable.v is regenerated from the live files under introspect/type/ on every run",
         "that the derives' output compiles is established by compiling the corpus (testing, not proof)",
-        "interface render -> parse -> equal is a correspondence-only check against the real Display/parser "
-        "(equality = zlink's PartialEq AND structural equality incl. comments modulo surrounding blanks)",
+        "C16_interface_roundtrips relies on the IDL family's models of Display and the parser (coq/Idl, theorem "
+        "parse_render_normalise_wf, tied to zlink-core by C13/C14's checks); this check additionally runs the real "
+        "Display/parser on every assembled interface (equality = zlink's PartialEq AND structural equality of names, "
+        "types and order)",
     ]
     ck.finish(rule="a case = one generated declaration with one derive (or one assembled interface); distinct by "
                    "source text; non-trivial = at least two fields/variants")
